@@ -217,3 +217,230 @@ Proof.
   unfold erase_list in *.
   destruct (existsb is_lma (m_args m)); cbn [flat_map call_args app map]; rewrite !map_app, Ha; reflexivity.
 Qed.
+
+(* ------------------------------------------------------------------ helpers for the other categories *)
+Lemma cma_has_operator : forall l, existsb is_cma l = true ->
+  existsb (fun a => is_lma a || is_cma a) l = true.
+Proof.
+  intros l; induction l as [|a r IH]; simpl; intros H; [discriminate|].
+  destruct (is_cma a); [rewrite orb_true_r; reflexivity|]. simpl in H. rewrite (IH H). apply orb_true_r.
+Qed.
+Lemma cma_op_of_filter_nil : forall m, filter is_cma (m_args m) = [] -> cma_operation m = None.
+Proof. intros m H. unfold cma_operation. rewrite H. reflexivity. Qed.
+Lemma fields_no_cma : forall l, forallb is_field l = true -> filter is_cma l = [].
+Proof.
+  intros l; induction l as [|a r IH]; simpl; intros H; [reflexivity|].
+  apply andb_prop in H; destruct H as [Ha Hr]. destruct a; try discriminate. simpl. exact (IH Hr).
+Qed.
+Lemma fields_no_lma : forall l, forallb is_field l = true -> existsb is_lma l = false.
+Proof.
+  intros l; induction l as [|a r IH]; simpl; intros H; [reflexivity|].
+  apply andb_prop in H; destruct H as [Ha Hr]. destruct a; try discriminate. simpl. exact (IH Hr).
+Qed.
+Lemma fields_fos : forall m f, forallb is_field (m_args m) = true -> In f (unique_fss m) ->
+  field_on_space m f = true.
+Proof.
+  intros m f Hf Hin. unfold unique_fss, uniq_fs in Hin. apply dedup_incl in Hin.
+  apply in_flat_map in Hin. destruct Hin as [a [Ha Hfa]].
+  pose proof (proj1 (forallb_forall _ _) Hf a Ha) as Hfield.
+  unfold field_on_space. apply existsb_exists. exists a. split; [exact Ha|].
+  destruct a; try discriminate. simpl in Hfa. destruct Hfa as [Hfa|[]]. subst. apply fs_eqb_refl.
+Qed.
+Lemma no_fields_fos : forall l f, forallb (fun a => is_cma a || is_scalar a) l = true ->
+  existsb (fun a => match a with MField _ _ _ g _ _ _ => fs_eqb g f | _ => false end) l = false.
+Proof.
+  intros l f; induction l as [|a r IH]; simpl; intros H; [reflexivity|].
+  apply andb_prop in H; destruct H as [Ha Hr]. destruct a; try discriminate; simpl; exact (IH Hr).
+Qed.
+Lemma field_arg : forall i a, is_field a = true -> doc_arg_general i a = doc_field i a.
+Proof. intros i a H; destruct a; try discriminate; reflexivity. Qed.
+
+(* ------------------------------------------------------------------ inter-grid kernels *)
+Lemma fs_intergrid : forall v m f,
+  is_intergrid m = true -> m_funcs m = [] -> forallb is_field (m_args m) = true ->
+  m_opon m = CellColumn -> m_name m = KOther -> In f (unique_fss m) ->
+  flat_map (call_args v) (fs_events m f) = doc_fs_intergrid m f.
+Proof.
+  intros v m f Hig Hf Hfl Ho Hn Hin.
+  unfold fs_events, doc_fs_intergrid, cma_on_space.
+  rewrite Hig, Hf, Ho, Hn, (fields_fos m f Hfl Hin), (no_cma_on_space _ f (fields_no_cma _ Hfl)).
+  cbn [negb andb func_of app]. rewrite andb_false_r. cbn [app flat_map].
+  destruct (mesh_of_space (m_args m) f) as [[|]|]; reflexivity.
+Qed.
+
+Lemma rules_intergrid : forall v m,
+  is_intergrid m = true -> m_funcs m = [] -> m_mesh m = [] -> forallb is_field (m_args m) = true ->
+  m_opon m = CellColumn -> m_name m = KOther -> forallb no_xory1d (m_args m) = true -> m_refelem m = [] ->
+  erase_list (doc_intergrid m) = erase_list (call_list v m).
+Proof.
+  intros v m Hig Hf Hm Hfl Ho Hn Hx Hr.
+  pose proof (fields_no_cma _ Hfl) as Hnc. pose proof (cma_op_of_filter_nil m Hnc) as Hc.
+  unfold call_list, walk, doc_intergrid, cma_is, has_operator, has_cma, basis_required.
+  rewrite Hig, Hc, Ho, Hn, Hr, Hm, Hf, (no_cma_has_operator _ Hnc), (fields_no_lma _ Hfl),
+          (filter_nil_existsb _ _ Hnc).
+  cbn [orb existsb]. rewrite !flat_map_app, flat_map_flat_map,
+    (flat_map_ext_in _ _ _ (fun f Hin => fs_intergrid v m f Hig Hf Hfl Ho Hn Hin)), call_args_events.
+  cbn [flat_map call_args app refelem_slots mesh_slots dedup map existsb in_cols].
+  assert (Ha : erase_list (doc_args doc_field 0 (m_args m)) =
+               erase_list (doc_args (fun i a => flat_map (call_args v)
+                                       (arg_events (sizes_declared_as_arrays m) i a)) 0 (m_args m))).
+  { apply doc_args_erase_ext. intros i a Hin. symmetry.
+    rewrite <- (field_arg i a (proj1 (forallb_forall _ _) Hfl a Hin)).
+    apply arg_general. exact (proj1 (forallb_forall _ _) Hx a Hin). }
+  unfold erase_list in *. cbn [map]. rewrite !map_app, Ha, ?app_nil_r. reflexivity.
+Qed.
+
+(* ------------------------------------------------------------------ CMA matrix-matrix kernels *)
+Lemma fs_mm : forall v m f,
+  is_intergrid m = false -> cma_operation m = Some MatrixMatrix -> m_funcs m = [] ->
+  forallb (fun a => is_cma a || is_scalar a) (m_args m) = true -> m_name m = KOther ->
+  flat_map (call_args v) (fs_events m f) = [].
+Proof.
+  intros v m f Hig Hc Hf Hcs Hn.
+  unfold fs_events, cma_is, field_on_space. rewrite Hig, Hc, Hf, Hn, (no_fields_fos _ f Hcs).
+  cbn [negb andb func_of app]. destruct (cma_on_space m f); reflexivity.
+Qed.
+Lemma mm_arg : forall i a, is_cma a || is_scalar a = true -> doc_arg_general i a = doc_arg_mm i a.
+Proof. intros i a H; destruct a; try discriminate; reflexivity. Qed.
+
+Lemma rules_mm : forall v m,
+  is_intergrid m = false -> cma_operation m = Some MatrixMatrix -> m_funcs m = [] -> m_mesh m = [] ->
+  forallb (fun a => is_cma a || is_scalar a) (m_args m) = true ->
+  m_opon m = CellColumn -> m_name m = KOther -> forallb no_xory1d (m_args m) = true -> m_refelem m = [] ->
+  erase_list (doc_mm m) = erase_list (call_list v m).
+Proof.
+  intros v m Hig Hc Hf Hm Hcs Ho Hn Hx Hr.
+  pose proof (cma_some m _ Hc) as Hex.
+  unfold call_list, walk, doc_mm, cma_is, has_operator, has_cma, basis_required.
+  rewrite Hig, Hc, Ho, Hn, Hr, Hm, Hf, (cma_has_operator _ Hex), Hex.
+  cbn [orb existsb]. rewrite !flat_map_app, flat_map_flat_map,
+    (flat_map_nil_all _ _ (fun f => fs_mm v m f Hig Hc Hf Hcs Hn)), call_args_events.
+  cbn [flat_map call_args app refelem_slots mesh_slots dedup map existsb].
+  assert (Ha : erase_list (doc_args doc_arg_mm 0 (m_args m)) =
+               erase_list (doc_args (fun i a => flat_map (call_args v)
+                                       (arg_events (sizes_declared_as_arrays m) i a)) 0 (m_args m))).
+  { apply doc_args_erase_ext. intros i a Hin. symmetry.
+    rewrite <- (mm_arg i a (proj1 (forallb_forall _ _) Hcs a Hin)).
+    apply arg_general. exact (proj1 (forallb_forall _ _) Hx a Hin). }
+  unfold erase_list in *. cbn [map]. rewrite ?map_app, Ha, ?app_nil_r. reflexivity.
+Qed.
+
+(* ------------------------------------------------------------------ CMA assembly kernels *)
+Lemma fs_asm : forall v m f,
+  is_intergrid m = false -> cma_operation m = Some Assembly -> m_funcs m = [] ->
+  m_opon m = CellColumn -> m_name m = KOther ->
+  flat_map (call_args v) (fs_events m f) = doc_fs_asm m f.
+Proof.
+  intros v m f Hig Hc Hf Ho Hn.
+  unfold fs_events, doc_fs_asm, cma_is. rewrite Hig, Hc, Hf, Ho, Hn.
+  cbn [negb andb func_of app].
+  destruct (field_on_space m f), (cma_on_space m f); reflexivity.
+Qed.
+Lemma asm_arg : forall i a, is_lma a = false -> doc_arg_general i a = doc_arg_asm i a.
+Proof. intros i a H; destruct a; try discriminate; reflexivity. Qed.
+
+Lemma rules_assembly : forall v m,
+  is_intergrid m = false -> cma_operation m = Some Assembly -> m_funcs m = [] -> m_mesh m = [] ->
+  lma_first_only m = true ->
+  m_opon m = CellColumn -> m_name m = KOther -> forallb no_xory1d (m_args m) = true -> m_refelem m = [] ->
+  erase_list (doc_assembly m) = erase_list (call_list v m).
+Proof.
+  intros v m Hig Hc Hf Hm Hl Ho Hn Hx Hr.
+  pose proof (cma_some m _ Hc) as Hex.
+  unfold call_list, walk, doc_assembly, cma_is, has_operator, has_cma, basis_required.
+  rewrite Hig, Hc, Ho, Hn, Hr, Hm, Hf, (cma_has_operator _ Hex), Hex.
+  cbn [orb existsb]. rewrite !flat_map_app, flat_map_flat_map,
+    (flat_map_ext _ _ (fun f => fs_asm v m f Hig Hc Hf Ho Hn)), call_args_events.
+  unfold lma_first_only in Hl. destruct (m_args m) as [|a r] eqn:Ea; [discriminate|].
+  apply andb_prop in Hl; destruct Hl as [Hla Hlr]. apply negb_true_iff in Hlr.
+  destruct a as [| |k acc t f|]; try discriminate.
+  cbn [forallb] in Hx. apply andb_prop in Hx; destruct Hx as [_ Hxr].
+  cbn [first_lma is_lma doc_args doc_arg_asm arg_events].
+  cbn [flat_map call_args app refelem_slots mesh_slots dedup map existsb in_cols].
+  assert (Ha : erase_list (doc_args doc_arg_asm 1 r) =
+               erase_list (doc_args (fun i a => flat_map (call_args v)
+                                       (arg_events (sizes_declared_as_arrays m) i a)) 1 r)).
+  { apply doc_args_erase_ext. intros i a Hin. symmetry.
+    assert (Hna : is_lma a = false).
+    { destruct (is_lma a) eqn:E; [|reflexivity].
+      assert (existsb is_lma r = true) by (apply existsb_exists; exists a; tauto). congruence. }
+    rewrite <- (asm_arg i a Hna).
+    apply arg_general. exact (proj1 (forallb_forall _ _) Hxr a Hin). }
+  unfold erase_list in *. cbn [map]. rewrite ?map_app, Ha, ?app_nil_r. reflexivity.
+Qed.
+
+(* ------------------------------------------------------------------ CMA application kernels *)
+Lemma cma_spaces_on : forall m t, cma_spaces m = [t] -> cma_on_space m t = true.
+Proof.
+  intros m t H. unfold cma_spaces in H.
+  destruct (filter is_cma (m_args m)) as [|a r] eqn:E; [discriminate|].
+  assert (Hin : In a (m_args m)).
+  { apply (proj1 (filter_In is_cma a (m_args m))). rewrite E. left; reflexivity. }
+  destruct a as [| | |acc t' f']; try discriminate.
+  unfold cma_on_space. apply existsb_exists. exists (MCma acc t' f'). split; [exact Hin|].
+  destruct (fs_eqb t' f'); inversion H; subst; rewrite fs_eqb_refl; reflexivity.
+Qed.
+Lemma apply_arg : forall i a, is_field a || is_cma a = true -> doc_arg_general i a = doc_arg_apply i a.
+Proof. intros i a H; destruct a; try discriminate; reflexivity. Qed.
+
+Lemma rules_apply : forall v m t,
+  is_intergrid m = false -> cma_operation m = Some Apply -> m_funcs m = [] -> m_mesh m = [] ->
+  forallb (fun a => is_field a || is_cma a) (m_args m) = true ->
+  cma_spaces m = [t] -> unique_fss m = [t] -> field_on_space m t = true ->
+  m_opon m = CellColumn -> m_name m = KOther -> forallb no_xory1d (m_args m) = true -> m_refelem m = [] ->
+  erase_list (doc_apply m) = erase_list (call_list v m).
+Proof.
+  intros v m t Hig Hc Hf Hm Hfc Hcs Hu Hfos Ho Hn Hx Hr.
+  pose proof (cma_some m _ Hc) as Hex. pose proof (cma_spaces_on m t Hcs) as Hon.
+  unfold call_list, walk, doc_apply, cma_is, has_operator, has_cma, basis_required.
+  rewrite Hig, Hc, Ho, Hn, Hr, Hm, Hf, Hcs, Hu, (cma_has_operator _ Hex), Hex.
+  cbn [orb existsb]. rewrite !flat_map_app, call_args_events.
+  change (flat_map (fs_events m) [t]) with (fs_events m t ++ []). rewrite app_nil_r.
+  unfold fs_events, cma_is. rewrite Hig, Hc, Hf, Ho, Hn, Hfos, Hon.
+  cbn [negb andb func_of flat_map call_args app refelem_slots mesh_slots dedup map existsb in_cols].
+  assert (Ha : erase_list (doc_args doc_arg_apply 0 (m_args m)) =
+               erase_list (doc_args (fun i a => flat_map (call_args v)
+                                       (arg_events (sizes_declared_as_arrays m) i a)) 0 (m_args m))).
+  { apply doc_args_erase_ext. intros i a Hin. symmetry.
+    rewrite <- (apply_arg i a (proj1 (forallb_forall _ _) Hfc a Hin)).
+    apply arg_general. exact (proj1 (forallb_forall _ _) Hx a Hin). }
+  unfold erase_list in *. cbn [map]. rewrite ?map_app, Ha, ?app_nil_r. reflexivity.
+Qed.
+
+(* ------------------------------------------------------------------ the theorem *)
+Theorem walk_matches_rules_ : forall v m, rules_safe v m = true ->
+  erase_list (doc_list m) = erase_list (call_list v m).
+Proof.
+  intros v m H. unfold rules_safe in H.
+  repeat (apply andb_prop in H; let H' := fresh "H" in destruct H as [H H']).
+  rename H into Hcc.
+  assert (Ho : m_opon m = CellColumn) by (destruct (m_opon m); simpl in Hcc; congruence).
+  assert (Hn : m_name m = KOther) by (destruct (m_name m); simpl in *; congruence).
+  apply is_none_hd in H4.
+  unfold doc_list. destruct (is_intergrid m) eqn:Hig.
+  - unfold plain in H0. apply andb_prop in H0; destruct H0 as [Hp Hfl].
+    apply andb_prop in Hp; destruct Hp as [Hf Hm]. apply is_none_hd in Hf. apply is_none_hd in Hm.
+    apply rules_intergrid; assumption.
+  - destruct (cma_operation m) as [[| |]|] eqn:Hc.
+    + apply andb_prop in H0; destruct H0 as [Hp Hl]. unfold plain in Hp.
+      apply andb_prop in Hp; destruct Hp as [Hf Hm]. apply is_none_hd in Hf. apply is_none_hd in Hm.
+      apply rules_assembly; assumption.
+    + apply andb_prop in H0; destruct H0 as [Hp Hs]. apply andb_prop in Hp; destruct Hp as [Hp Hfc].
+      unfold plain in Hp. apply andb_prop in Hp; destruct Hp as [Hf Hm].
+      apply is_none_hd in Hf. apply is_none_hd in Hm.
+      destruct (cma_spaces m) as [|t [|t2 r2]] eqn:Hcs; try discriminate.
+      destruct (unique_fss m) as [|u [|u2 r3]] eqn:Hu; try discriminate.
+      apply andb_prop in Hs; destruct Hs as [Htu Hfos]. apply fs_eqb_eq in Htu. subst u.
+      apply (rules_apply v m t); assumption.
+    + apply andb_prop in H0; destruct H0 as [Hp Hcs]. unfold plain in Hp.
+      apply andb_prop in Hp; destruct Hp as [Hf Hm]. apply is_none_hd in Hf. apply is_none_hd in Hm.
+      apply rules_mm; assumption.
+    + rewrite Ho. cbn [is_domain]. apply rules_general; assumption.
+Qed.
+
+(* with a stub: the generated stub follows the documented rules as well *)
+Theorem stub_matches_rules_ : forall v m, rules_safe v m = true -> safe v false m = true ->
+  erase_list (doc_list m) = erase_list (stub_list v m).
+Proof.
+  intros v m Hr Hs. rewrite (walk_matches_rules_ v m Hr). exact (call_matches_stub_modkind_ v m Hs).
+Qed.
